@@ -45,6 +45,8 @@ def _with_items(w):
 
 
 def run(ck, m):
+    from rules.common import rule_memo_safety
+    rule_memo_safety(ck, m, "MEMO", "C14")          # first: a memoised helper also hides the code it wraps from the rules below
     tree = m.tree(U)
     lock_tty = m.get(U, "lock_tty")
     wrapper = m.get(U, "lock_tty.lock_tty_wrapper")
@@ -253,8 +255,6 @@ def run(ck, m):
               f"`{short(c, 40)}` (migration to a multiprocessing primitive) is not decided by `isinstance(<lock>, _rlock_type)` (conditions: {sorted(cds)[:3]}): a flag kept beside the lock is lost when a "
               "spawn/forkserver child re-imports the module and adopts only the lock, so the child would create a second, unrelated lock for its own children", stmt=f"_process_start_wrapper: {short(c, 30)} iff the lock is still thread-only")
 
-    from rules.common import rule_memo_safety
-    rule_memo_safety(ck, m, "MEMO", "C14")
 
 
 def _anc(n):
